@@ -57,6 +57,49 @@ def base_type(t):
     return strip_targs(norm_type(t)).replace("*", "").strip()
 
 
+def _split_top(s, sep=","):
+    out, depth, cur = [], 0, ""
+    for ch in s:
+        if ch in "<(":
+            depth += 1
+        elif ch in ">)":
+            depth -= 1
+        if ch == sep and depth == 0:
+            out.append(cur.strip())
+            cur = ""
+        else:
+            cur += ch
+    if cur.strip():
+        out.append(cur.strip())
+    return out
+
+
+_SIG_CACHE = {}
+
+
+def stable_sig(fx, fn):
+    """fn.sig made independent of the template instantiation: all exported functions defined at the
+    same source position are instantiations of one template; a parameter position whose type
+    differs between them is rendered as $T (the exporter does not give the template pattern)."""
+    ck = id(fx)
+    idx = _SIG_CACHE.get(ck)
+    if idx is None:
+        idx = {}
+        for f in fx.functions.values():
+            idx.setdefault((f.file, f.line, f.qn, len(f.params)), []).append(f)
+        _SIG_CACHE.clear()
+        _SIG_CACHE[ck] = idx
+    group = idx.get((fn.file, fn.line, fn.qn, len(fn.params)), [fn])
+    if len(group) < 2:
+        return fn.sig
+    types = []
+    for i, p in enumerate(fn.params):
+        ts = {g.params[i].get("t") for g in group}
+        types.append("$T" if len(ts) > 1 else F.short(p.get("t", "")))
+    tail = fn.key[fn.key.rfind(")") + 1:]
+    return "%s(%s)%s" % (F.short(fn.rec["qn"]), ", ".join(types), tail)
+
+
 class Val:
     """Taint value: level, text of the root source expression, ambiguity of the root."""
     __slots__ = ("lv", "root", "amb")
@@ -309,6 +352,15 @@ class FnCtx:
             self._noinline = False
 
     _noinline = False
+    _anon = False
+
+    def fingerprint(self, n):
+        """rtext with the locals that cannot be inlined rendered as `_`: independent of local names."""
+        self._anon = True
+        try:
+            return self.rtext(n)
+        finally:
+            self._anon = False
 
     def rtext(self, n, depth=0):
         """F.expr_text with never re-assigned locals replaced by their initialiser, so that the
@@ -322,10 +374,14 @@ class FnCtx:
             init = self.single_init.get(n["ref"].get("decl"))
             if init is not None:
                 init = _unwrap(init)
-                if init.get("k") not in ("CXXConstructExpr", "CXXTemporaryObjectExpr", "InitListExpr"):
+                if init.get("k") not in ("CXXConstructExpr", "CXXTemporaryObjectExpr", "InitListExpr",
+                                         "BinaryOperator", "ConditionalOperator", "UnaryOperator") or \
+                        (init.get("k") == "UnaryOperator" and init.get("op") in ("*", "&")):
                     return self.rtext(init, depth + 1)
-            return n["ref"].get("name", "?")
+            return "_" if self._anon else n["ref"].get("name", "?")
         c = n.get("c") or []
+        if k == "DeclRefExpr" and n["ref"].get("dk") == "local" and self._anon:
+            return "_"
         if not c or depth > 16:
             return F.expr_text(n)
         # render with substituted children: reuse expr_text on a shallow copy is not possible
@@ -361,6 +417,19 @@ class FnCtx:
             return self.rtext(c[0], depth + 1)
         if k in _CASTS:
             return self.rtext(c[0], depth + 1)
+        if k == "BinaryOperator" and len(c) == 2:
+            op = n.get("op")
+            prec = {"*": 3, "/": 3, "%": 3, "+": 2, "-": 2}.get(op, 1)
+            parts = []
+            for i, ch in enumerate(c):
+                t = self.rtext(ch, depth + 1)
+                ch0 = _unwrap(ch)
+                if ch0.get("k") == "BinaryOperator":
+                    cp = {"*": 3, "/": 3, "%": 3, "+": 2, "-": 2}.get(ch0.get("op"), 1)
+                    if cp < prec or (cp == prec and i == 1):
+                        t = "(" + t + ")"
+                parts.append(t)
+            return "%s %s %s" % (parts[0], op, parts[1])
         return F.expr_text(n)
 
 
@@ -841,6 +910,27 @@ def _evaluate(eng, fns):
 _RESULTS = {}
 
 
+class Emit:
+    """Collects instances by key; a violating evaluation of a key dominates a holding one (the same
+    source expression is evaluated once per template instantiation)."""
+
+    def __init__(self, ctx, rule):
+        self.ctx, self.rule, self.items = ctx, rule, {}
+
+    def add(self, key, ok, where="", fn="", msg="", detail=None):
+        old = self.items.get(key)
+        if old is None or (old[0] and not ok):
+            self.items[key] = (ok, where, fn, msg, detail)
+
+    def flush(self):
+        n_ok = n_bad = 0
+        for key, (ok, where, fn, msg, detail) in self.items.items():
+            self.ctx.report(self.rule, key, ok, where, fn, msg, detail)
+            n_ok += ok
+            n_bad += not ok
+        return n_ok, n_bad
+
+
 def scope_results(ctx, scope_name, table=None):
     """Converged sink leaves of one scope (cached per fact base)."""
     ck = (id(ctx.facts), scope_name)
@@ -872,9 +962,9 @@ def scope_results(ctx, scope_name, table=None):
 
 def run_esc(ctx, rule, scope_name, table=None):
     eng, spec, leaves, rounds = scope_results(ctx, scope_name, table)
+    fx = ctx.facts
     n_sinks = len(leaves)
-    n_ok = n_bad = 0
-    seen = {}
+    em = Emit(ctx, rule)
     per_file = {}
     by_fn = {}
     for fn, c, leaf, v, what, quote in leaves:
@@ -885,6 +975,7 @@ def run_esc(ctx, rule, scope_name, table=None):
     for items in by_fn.values():
         fn = items[0][0]
         ctx.saw(fn)
+        sig = stable_sig(fx, fn)
         counts = {}
         rooted = []
         for fn, c, leaf, v, what in items:
@@ -899,26 +990,19 @@ def run_esc(ctx, rule, scope_name, table=None):
             counts[root] = counts.get(root, 0) + 1
         ordn = {}
         for root, prov, c, leaf, v, what in rooted:
-            key = "%s:%s" % (fn.sig, root)
+            key = "%s:%s" % (sig, root)
             if counts[root] > 1:
                 ordn[root] = ordn.get(root, 0) + 1
                 key += "#%d" % ordn[root]
             ok = v.lv == SAN
-            if seen.get(key) == ok:
-                continue              # same instance in another instantiation of a template
-            seen[key] = ok
             detail = {"operand": c.text(leaf), "value": LEVEL[v.lv], "sink": what}
             if prov:
                 detail["tainted_by"] = prov
-            if ok:
-                n_ok += 1
-                ctx.ok(rule, key, fn.where(leaf), fn.short, detail=detail)
-            else:
-                n_bad += 1
-                ctx.bad(rule, key, fn.where(leaf), fn.short,
-                        msg="`%s` carries %s and is written to the markup (%s) without the sanitiser %s"
-                        % (c.text(leaf), prov or root, what,
-                           "/".join(sorted(F.short(x) for x in eng.sanitizers))), detail=detail)
+            msg = "" if ok else ("`%s` carries %s and is written to the markup (%s) without the sanitiser %s"
+                                 % (c.text(leaf), prov or root, what,
+                                    "/".join(sorted(F.short(x) for x in eng.sanitizers))))
+            em.add(key, ok, fn.where(leaf), fn.short, msg, detail)
+    n_ok, n_bad = em.flush()
     fl = spec.get("floors", {})
     ctx.floor(rule, fl.get("sinks", 1), n_sinks, "%s: sink operands analysed" % scope_name)
     ctx.floor(rule, fl.get("instances", 1), n_ok + n_bad, "%s: operands carrying tainted data" % scope_name)
@@ -1373,7 +1457,7 @@ def run_ysign(ctx, rule="R-YSIGN"):
         fx.fn(a)
     fns = sorted((f for f in fx.functions.values() if scope(f) and f.body is not None),
                  key=lambda f: (f.file, f.line, f.key))
-    exempt = spec.get("internal_system_outputs", {})
+    exempt = {k: v for k, v in spec.get("internal_system_outputs", {}).items() if not k.startswith("_")}
     rounds = 0
     while True:
         rounds += 1
@@ -1394,8 +1478,7 @@ def run_ysign(ctx, rule="R-YSIGN"):
             break
         if rounds > 10:
             raise AnalysisBroken("R-YSIGN: sign propagation did not converge")
-    seen = {}
-    n_ok = n_bad = 0
+    em = Emit(ctx, rule)
     restored_in = {}          # fn.key -> number of restored outputs
     by_fn = {}
     for item in found:
@@ -1404,6 +1487,7 @@ def run_ysign(ctx, rule="R-YSIGN"):
     for items in by_fn.values():
         fn = items[0][0]
         ctx.saw(fn)
+        sig = stable_sig(fx, fn)
         counts = {}
         texts = []
         for fn, c, n, st, cons in items:
@@ -1412,7 +1496,7 @@ def run_ysign(ctx, rule="R-YSIGN"):
             counts[t] = counts.get(t, 0) + 1
         ordn = {}
         for (fn, c, n, st, cons), t in zip(items, texts):
-            key = "%s:%s" % (fn.sig, t)
+            key = "%s:%s" % (sig, t)
             if counts[t] > 1:
                 ordn[t] = ordn.get(t, 0) + 1
                 key += "#%d" % ordn[t]
@@ -1420,28 +1504,23 @@ def run_ysign(ctx, rule="R-YSIGN"):
                 restored_in[fn.key] = restored_in.get(fn.key, 0) + 1
             ok = st == "R"
             why = ""
-            if not ok and key in exempt:
+            fkey = "%s:%s" % (sig, c.tctx.fingerprint(n))
+            if not ok and fkey in exempt:
                 ok = True
-                why = "internal-system output: " + exempt[key]
-                used_exempt.add(key)
-            if seen.get(key) == ok:
-                continue
-            seen[key] = ok
+                why = "internal-system output: " + exempt[fkey]
+                used_exempt.add(fkey)
             detail = {"expression": c.tctx.text(n), "state": _STATE_TXT[st], "consumer": cons[1]}
             if why:
                 detail["exempt"] = why
-            if ok:
-                n_ok += 1
-                ctx.ok(rule, key, fn.where(n), fn.short, msg=why, detail=detail)
-            else:
-                n_bad += 1
-                ctx.bad(rule, key, fn.where(n), fn.short,
-                        msg="`%s` is an internal y value (sign flipped by remove_inconsistency for inconsistent "
-                        "systems) and is %s without being multiplied by the y-sign" % (c.tctx.text(n), cons[1]),
-                        detail=detail)
+            msg = why if ok else ("`%s` is an internal y value (sign flipped by remove_inconsistency for "
+                                  "inconsistent systems) and is %s without being multiplied by the y-sign"
+                                  % (c.tctx.text(n), cons[1]))
+            em.add(key, ok, fn.where(n), fn.short, msg, detail)
     for k in exempt:
         if k not in used_exempt:
             raise AnalysisBroken("R-YSIGN: exempted instance %s no longer exists - table is stale" % k)
+    n_ok, n_bad = em.flush()
+    seen = {}
     # ---- sibling clause 1: a visitor whose visit(Ydiff*) restores the sign does so in visit(Y*) too
     n_sib = 0
     classes = {}
@@ -1469,7 +1548,7 @@ def run_ysign(ctx, rule="R-YSIGN"):
         if not any(r.values()):
             continue
         for t, f in sorted(d.items()):
-            key = "%s:sibling-restores-sign" % f.sig
+            key = "%s:sibling-restores-sign" % stable_sig(fx, f)
             if seen.get(key) is not None:
                 continue
             seen[key] = r[t] > 0
@@ -1478,28 +1557,34 @@ def run_ysign(ctx, rule="R-YSIGN"):
                        msg="" if r[t] > 0 else "the sibling %s multiplies its value by the y-sign, %s does not"
                        % (", ".join(F.short(x.sig) for tt, x in d.items() if r[tt] > 0), F.short(f.sig)),
                        detail={"restored_outputs": r[t]})
-    # ---- sibling clause 2: a type test for Ydiff is accompanied by one for Y (both are flipped)
+    # ---- sibling clause 2: code shared by the visit methods of an all-observations visitor (and the
+    # function that flips the signs) that singles out one y-carrying kind by dynamic_cast handles both
     n_dc = 0
-    for fn in fns + [fx.fn(a) for a in spec.get("dyncast_anchors", [])]:
+    kinds = set(spec.get("coordinate_kinds", []))
+    base = spec.get("all_observations_visitor")
+    anchors = [fx.fn(a) for a in spec.get("dyncast_anchors", [])]
+    for fn in fns + anchors:
+        if fn not in anchors:
+            if not fn.cls or base not in fx.bases_of(fn.cls if fn.cls in fx.classes else strip_targs(fn.cls)):
+                continue
         tested = set()
         for n in fn.walk():
             if n.get("k") == "CXXDynamicCastExpr":
-                bt = base_type(n.get("castTo") or n.get("t"))
-                if bt in eng.y_types:
-                    tested.add(bt)
-        if not tested:
-            continue
-        key = "%s:type-tests-Y-and-Ydiff" % fn.sig
+                tested.add(base_type(n.get("castTo") or n.get("t")))
+        ty = tested & eng.y_types
+        if not ty or (tested & (kinds - eng.y_types)):
+            continue                     # no y kind tested, or all coordinate kinds treated alike
+        key = "%s:type-tests-Y-and-Ydiff" % stable_sig(fx, fn)
         if key in seen:
             continue
         seen[key] = True
         n_dc += 1
         ctx.saw(fn)
-        missing = sorted(eng.y_types - tested)
+        missing = sorted(eng.y_types - ty)
         ctx.report(rule, key, not missing, fn.where(), fn.short,
-                   msg="" if not missing else "handles %s by dynamic_cast but not %s: both observation kinds carry "
-                   "a y value whose sign remove_inconsistency flips" % (", ".join(F.short(x) for x in sorted(tested)),
-                                                                       ", ".join(F.short(x) for x in missing)))
+                   msg="" if not missing else "singles out %s by dynamic_cast but not %s: both observation kinds "
+                   "carry a y value whose sign remove_inconsistency flips" % (", ".join(F.short(x) for x in sorted(ty)),
+                                                                             ", ".join(F.short(x) for x in missing)))
     fl = spec.get("floors", {})
     ctx.floor(rule, fl.get("outputs", 1), n_ok + n_bad, "y-carrying values leaving arithmetic in writer scopes")
     ctx.floor(rule, fl.get("restored", 1), n_ok, "y outputs multiplied by the y-sign")
